@@ -6,6 +6,7 @@ import (
 	"io"
 	"strings"
 	"testing"
+	"time"
 
 	"github.com/emersion/go-smtp"
 	"pgregory.net/rapid"
@@ -23,6 +24,11 @@ type c16Case struct {
 	LMTP       bool             `json:"lmtp"`
 	Rcpts      []bool           `json:"rcpts"` // per recipient: accepted at RCPT time?
 	CloseTwice bool             `json:"close_twice"`
+	// SlowMs > 0: the client's CommandTimeout is set to SlowMs/2 and the
+	// producer pauses SlowMs before writing the body (a slow producer must not
+	// be cut off by the timeout of the DATA command, which is over). Wall-clock
+	// is only the trigger; on a correct client nothing is armed while it waits.
+	SlowMs int `json:"slow_ms,omitempty"`
 }
 
 // c16Normalise is the reference: bare LF becomes CRLF and a final CRLF is
@@ -56,6 +62,9 @@ func c16Run(c c16Case) Verdict {
 	var consumed1, consumed2 int64
 	var wantRcpts []string
 	ok := withClient(r, c.LMTP, func(cl *smtp.Client, w *harness.Wire) {
+		if c.SlowMs > 0 {
+			cl.CommandTimeout = time.Duration(c.SlowMs) * time.Millisecond / 2
+		}
 		if err := cl.Mail("sender@x", nil); err != nil {
 			setupErr = err
 			return
@@ -81,6 +90,9 @@ func c16Run(c c16Case) Verdict {
 		if err != nil {
 			setupErr = err
 			return
+		}
+		if c.SlowMs > 0 {
+			time.Sleep(time.Duration(c.SlowMs) * time.Millisecond)
 		}
 		prev := 0
 		for _, s := range c.Splits {
@@ -110,6 +122,9 @@ func c16Run(c c16Case) Verdict {
 	if !ok {
 		return Verdict{Inconclusive: "watchdog in client run"}
 	}
+	if setupErr != nil && c.SlowMs > 0 {
+		return failf("slow-producer", "after pausing %d ms before the body (CommandTimeout %d ms) a client call failed: %v", c.SlowMs, c.SlowMs/2, setupErr)
+	}
 	if setupErr != nil {
 		return Verdict{Inconclusive: "setup: " + setupErr.Error()}
 	}
@@ -131,6 +146,9 @@ func c16Run(c c16Case) Verdict {
 	}
 	if len(c.Splits) > 0 {
 		v.Classes = append(v.Classes, "multiple_writes")
+	}
+	if c.SlowMs > 0 {
+		v.Classes = append(v.Classes, "slow_producer")
 	}
 	evs := r.B.Events()
 	des := dataEvents(evs)
@@ -244,6 +262,10 @@ func c16Gen(t *rapid.T) c16Case {
 		}
 	}
 	c := c16Case{Body: body, Splits: c16Partition(t, len(body)), Verdict: c16GenVerdict(t), LMTP: rapid.Bool().Draw(t, "lmtp"), CloseTwice: rapid.Bool().Draw(t, "twice")}
+	// a few slow-producer cases (each costs its pause in wall-clock time)
+	if rapid.IntRange(0, 999).Draw(t, "slow")%40 == 25 {
+		c.SlowMs = 40
+	}
 	nr := rapid.IntRange(1, 3).Draw(t, "nrcpt")
 	for i := 0; i < nr; i++ {
 		c.Rcpts = append(c.Rcpts, i == 0 || rapid.IntRange(0, 3).Draw(t, "acc") != 0)
